@@ -19,6 +19,15 @@ def templates(tier, seed):
     ts = []
     for N in ((1, 2, 3) if tier == "quick" else (1, 2, 3, 4, 5)):
         ts.append(Template(f"STUB/series/N={N}", tmpl.pick(tmpl.coerce_stub_case, LABELS), (N, "series")))
+    # the element conversion may raise ANY exception type (np.int64(2**64) raises OverflowError), in both engines' try_coerce
+    for engine in ("pandas",):  # (a numpy_engine stub is re-resolved to the real pandas_engine dtype inside engines/utils: not stub-able)
+        for exc in ("ValueError", "TypeError", "OverflowError", "ArithmeticError", "KeyError"):
+            if engine == "pandas" and exc == "ValueError":
+                continue
+            ts.append(Template(f"STUB/{engine}/{exc}/N=2", tmpl.pick(tmpl.coerce_stub_case, LABELS), (2, "series", None, engine, exc)))
+    for comp in ("multiindex_coerce_swapped", "multiindex_coerce", "index_coerce", "column_coerce"):
+        for lazy in (False, True):
+            ts.append(Template(f"COMP/{comp}/lazy={int(lazy)}/N=2", tmpl.pick(tmpl.component_case, LABELS), (comp, 2, lazy)))
     # elements that compare equal and hash alike (as 1, 1.0 and True do) but convert independently
     for keys in ([0, 0], [0, 1, 0], [0, 0, 0]) if tier == "quick" else ([0, 0], [0, 1, 0], [0, 0, 0], [0, 0, 1, 1], [1, 0, 0, 2]):
         ts.append(Template(f"STUB/equal_elements/{''.join(map(str, keys))}", tmpl.pick(tmpl.coerce_stub_case, LABELS), (len(keys), "series", keys)))
